@@ -213,7 +213,14 @@ def run_check(prop: Prop, tier: str, seed: int) -> int:
     info = {"translate": None, "build": None, "audit": None, "leanchecker": None}
     broken = []          # proof obligations / translation / audit that no longer check
     # 1-3: translate, build, audit
-    tr = leanside.do_translate()
+    tr = leanside.prepare_workspace()
+    try:
+        return _run_check_locked(prop, tier, seed, t0, info, broken, tr)
+    finally:
+        leanside.release_workspace(tr)
+
+
+def _run_check_locked(prop, tier, seed, t0, info, broken, tr) -> int:
     info["translate"] = tr
     if tr["error"]:
         broken.append(f"translator: {tr['error']}")
@@ -231,7 +238,7 @@ def run_check(prop: Prop, tier: str, seed: int) -> int:
             names += leanside.locate_broken(f, b["broken_at"])
         broken.append("theorems that no longer check: " + ", ".join(sorted(set(names)) or ["<build error>"]) + "\n" + b["output"][-1500:])
     else:
-        audit = leanside.audit(prop.id, prop.lean_modules)
+        audit = leanside.audit(prop.id, prop.lean_modules, [prop.driver] if prop.driver else [])
         info["audit"] = {k: audit[k] for k in ("ok", "forbidden", "nonstandard", "wall_s")}
         if not audit["ok"]:
             broken.append("audit: " + "; ".join(audit["forbidden"] + audit["nonstandard"]) + audit.get("raw_tail", ""))
@@ -420,7 +427,14 @@ def run_replay(prop: Prop, path: str) -> int:
     t0 = time.time()
     data = json.loads((paths.VERIF / path).read_text() if not os.path.isabs(path) else open(path).read())
     case = data.get("case")
-    tr = leanside.do_translate()
+    tr = leanside.prepare_workspace()
+    try:
+        return _run_replay_locked(prop, path, data, case, tr, t0)
+    finally:
+        leanside.release_workspace(tr)
+
+
+def _run_replay_locked(prop, path, data, case, tr, t0) -> int:
     broken = []
     if tr["error"]:
         broken.append(f"translator: {tr['error']}")
